@@ -82,7 +82,7 @@ structure Frame (s s' : VM) : Prop where
   ids : fxIds s'.r.fx = fxIds s.r.fx
 
 /-- `x` never changes the index component, the program or an instance's flow id — whether it returns or raises -/
-structure Keeps {α : Type} (x : M α) : Prop where
+structure KeepsFr {α : Type} (x : M α) : Prop where
   frame : ∀ s, Frame s (resSt (x s))
 
 /-- what `cfgOfInst f` returns, as a function of `Rest` -/
@@ -114,7 +114,7 @@ structure FrameQ (s s' : VM) : Prop where
   ids : fxIds s'.r.fx = fxIds s.r.fx
   queue : s'.r.queue = s.r.queue
 
-/-- `x` changes neither what `Keeps` protects nor the queue of internal events -/
+/-- `x` changes neither what `KeepsFr` protects nor the queue of internal events -/
 structure KeepsQ {α : Type} (x : M α) : Prop where
   frame : ∀ s, FrameQ s (resSt (x s))
 
